@@ -115,7 +115,7 @@ class Session:
         buftok = parts[3]
         buf = ('c',)
         if flex:
-            if buftok == 'v':
+            if buftok in ('v', 'r'):
                 buf = ('v', int(parts[4]), int(parts[5]), int(parts[6]))
             elif buftok == 'n':
                 buf = ('n',)
